@@ -473,6 +473,16 @@ public:
 
         [[maybe_unused]] const int ret = starpu_init(NULL);
         assert(ret == 0);
+
+        // One kernel per worker, the tasks use kernels[starpu_worker_get_id()]
+        pthread_mutex_t lock = PTHREAD_MUTEX_INITIALIZER;
+        TbStarPUUtils::ExecOnWorkers(STARPU_CUDA|STARPU_CPU, [&](){
+            pthread_mutex_lock(&lock);
+            increaseNumberOfKernels(starpu_worker_get_id()+1);
+            pthread_mutex_unlock(&lock);
+        });
+        pthread_mutex_destroy(&lock);
+
         starpu_pause();
     }
 
